@@ -938,6 +938,19 @@ func init() {
 					}
 				}
 			}
+			// hstack / vstack of rank-3 (thorough: rank-4) operands: the join axis is 1 / 0 whatever the rank
+			hv := [][2][]int{{{2, 2, 2}, {2, 1, 2}}, {{2, 2, 3}, {2, 1, 3}}}
+			if tier == "thorough" {
+				hv = append(hv, [2][]int{{1, 2, 1, 2}, {1, 1, 1, 2}}, [2][]int{{2, 2, 2}, {2, 2, 2}})
+			}
+			for hi, pr := range hv {
+				cfg := map[string]interface{}{"dtype": dts[hi%len(dts)], "n": 2, "axis": 1, "variant": "hstack", "layouts": "C," + lays[hi%len(lays)], "shape0": pr[0], "shape1": pr[1]}
+				out = append(out, mkInst("vhC10Concat", cfg, "dtype", "variant", "layouts", "shape0", "shape1"))
+				vs := [2][]int{append([]int{}, pr[0]...), append([]int{}, pr[0]...)}
+				vs[1][0] = 1
+				cfg2 := map[string]interface{}{"dtype": dts[(hi+1)%len(dts)], "n": 2, "axis": 0, "variant": "vstack", "layouts": lays[hi%len(lays)] + ",C", "shape0": vs[0], "shape1": vs[1]}
+				out = append(out, mkInst("vhC10Concat", cfg2, "dtype", "variant", "layouts", "shape0", "shape1"))
+			}
 			// stack
 			stShapes := [][]int{{3}, {2, 3}, {2, 2}, {1, 3}, {3, 1}, {2, 1, 2}}
 			if tier == "thorough" {
@@ -1090,6 +1103,10 @@ func init() {
 					if layoutOK(sh, base) {
 						out = append(out, mkInst("vhC13T", map[string]interface{}{"shape": sh, "base": base}, "shape", "base"))
 					}
+				}
+				if len(sh) >= 2 && len(sh) <= 3 {
+					// two successive lazy transposes (row-major sources; for column-major ones the move is C03's finding)
+					out = append(out, mkInst("vhC13T", map[string]interface{}{"shape": sh, "base": "C", "twice": 1}, "shape", "base", "twice"))
 				}
 			}
 			for _, sh := range [][]int{{6}, {2, 3}, {3, 2}, {1, 6}, {2, 3, 2}, {4}, {2, 2}} {
